@@ -182,35 +182,41 @@ def runStep (s : State) (t : TaskId) (e : Option Exc) : State × Out :=
                     | some x => s.log ++ [(t, x)]
                     | none => s.log }, .ok)
 
+/-- `fut_waiter and not fut_waiter.done()` : the future the task is blocked on, if any -/
+def blockedOn (s : State) (T : Task) : Option FutId :=
+  match T.futWaiter with
+  | some f => if (s.futs f).st = .pending then some f else none
+  | none => none
+
+/-- `fut_waiter and fut_waiter.cancelled()` -/
+def fwCancelled (s : State) (T : Task) : Bool :=
+  match T.futWaiter with
+  | some f => (s.futs f).st = .cancelled
+  | none => false
+
+/-- the common tail of task_throw: `task._fut_waiter = None; call_soon(step, exception)` -/
+def throwFin (s : State) (t : TaskId) (id : Nat) (cd : Bool) : State :=
+  { setTask s t { (s.tasks t) with futWaiter := none } with
+    ready := s.ready ++ [.step t (some (.intr id cd))],
+    thrown := s.thrown ++ [(t, id)] }
+
 /-- interrupt.task_throw, Python-task branch. -/
-def taskThrow (s : State) (t : TaskId) (cd : Bool) : State × Out :=
-  let T := s.tasks t
-  let id := s.nexc
-  let s := { s with nexc := s.nexc + 1 }
+def taskThrow (s0 : State) (t : TaskId) (cd : Bool) : State × Out :=
+  let T := s0.tasks t
+  let id := s0.nexc
+  let s := { s0 with nexc := s0.nexc + 1 }
   if T.done then (s, .refused) else
-  let blockedOn : Option FutId :=
-    match T.futWaiter with
-    | some f => if (s.futs f).st = .pending then some f else none
-    | none => none
-  let fin (s : State) : State × Out :=
-    let s := setTask s t { T with futWaiter := none }
-    ({ s with ready := s.ready ++ [.step t (some (.intr id cd))],
-              thrown := s.thrown ++ [(t, id)] }, .ok)
-  match blockedOn with
+  match blockedOn s0 T with
   | some f =>
     -- fut_waiter.remove_done_callback(task.__wakeup)
-    fin (setFut s f { (s.futs f) with cbs := (s.futs f).cbs.filter (· != .wake t) })
+    (throwFin (setFut s f { (s.futs f) with cbs := (s.futs f).cbs.filter (· != .wake t) }) t id cd, .ok)
   | none =>
-    let futCancelled : Bool :=
-      match T.futWaiter with
-      | some f => (s.futs f).st = .cancelled
-      | none => false
-    if T.mustCancel || futCancelled then (s, .refused) else
+    if T.mustCancel || fwCancelled s0 T then (s, .refused) else
     match popLast (isOf t) s.ready with
     | none =>
       -- `assert task is asyncio.current_task()` then RuntimeError("cannot interrupt self")
       if s.ctx = .inTask t then (s, .refused) else ({ s with err := true }, .kernelError)
-    | some (_, r) => fin { s with ready := r }
+    | some (_, r) => (throwFin { s with ready := r } t id cd, .ok)
 
 /-- scheduling._task_reinsert -/
 def reinsert (s : State) (t : TaskId) (pos : Nat) : State × Out :=
